@@ -472,7 +472,7 @@ def run_cases(ctx, cases, failures, samples=None):
                 test = None
             inp1 = dict(inp, omega=np.array([w]), freq_class=ft[o])
             if test is not None and classify(ctx, p, w, test):
-                failures.append(dict(kind='prop', observable=obs, signature=KNOWN_SIG, detail=det + ' [%s] (regression of c3a36ea)' % ft[o], input=inp1))
+                failures.append(dict(kind='prop', observable=obs, signature=KNOWN_SIG, detail=det + ' [%s] (near-resonant branches of _second_order_integral: c3a36ea, a13e2c1)' % ft[o], input=inp1))
             else:
                 failures.append(dict(kind='prop', observable=obs, signature='c10-' + obs, detail=det + ' [%s]' % ft[o], input=inp1))
         # change of the time unit: F2(dt*lam, H/lam, w/lam) = lam^2 F2(dt, H, w) (theorem time_scaling_F2)
@@ -547,7 +547,7 @@ def run_cases(ctx, cases, failures, samples=None):
             # known cancellation iff the table errors are confined to small non-zero denominators and the
             # implementation with the exact segment integral agrees with the model enclosure
             if exact_ok.get((ci, o), False):
-                failures.append(dict(kind='corr', observable='F2 vs model', signature=KNOWN_SIG, detail=det + ' (regression of c3a36ea)', input=inp1))
+                failures.append(dict(kind='corr', observable='F2 vs model', signature=KNOWN_SIG, detail=det + ' (near-resonant branches of _second_order_integral: c3a36ea, a13e2c1)', input=inp1))
             else:
                 failures.append(dict(kind='corr', observable='F2 vs model', signature='c10-corr', detail=det, input=inp1))
         elif x[0] == 0:
